@@ -6,6 +6,23 @@ BASE = ("Trusted: Lean 4.33 kernel; axioms propext/Classical.choice/Quot.sound o
         "Lean model is tied to /repo by a differential correspondence run (Rust harness calling the real code vs the model's "
         "executable definitions) — the tie is testing, not proof. ")
 CLAIMED = {
+ "C14": dict(
+   text="Lean theorems over a model of routing.rs path functions (PathBuilder, get_locale_from_path, get_new_path, localize_path, match/construct_path_segments): "
+        "a locale is read iff the first segment after the base equals a locale name (C14_locale_from_path_iff); switching preserves every non-locale, non-localized "
+        "segment, query and fragment (C14_switch_preserves/_meets_spec); A→B→A is the identity on normalised URLs under an explicit decidable compatibility hypothesis "
+        "(C14_switch_roundtrip). Correspondence: router_h include!s the private routing.rs and runs the real functions on generated locale sets, base paths, tables, paths and switch sequences.",
+   note=BASE + "generate_routes/match_nested and leptos_router's own matching are not modelled (tables assumed position-wise compatible); see notes/C14.md. No hooks (include!).",
+   tech="Lean 4 proof (induction over segment lists) + differential correspondence", ref="§6 C14, notes/C14.md"),
+ "C15": dict(
+   text="Lean theorems stating the documented precedence outright over a model of fetch_locale/resolve_locale/init_*context (cookie > Accept-Language match > default; sub-context: cookie > initial > parent > resolution; "
+        "invalid cookie behaves like no cookie) for all inputs; thin theorems — the exhaustive correspondence run (≈117k combinations of cookie × cookie name × enabled × header × parent × initial on the real ssr code) carries most of the weight.",
+   note=BASE + "leptos-use's header/cookie readers and q-value handling are oracles; client-side (hydrate/csr) paths are modelled but not executed. See notes/C15.md.",
+   tech="Lean 4 proof (decision logic) + exhaustive differential correspondence", ref="§6 C15, notes/C15.md"),
+ "C16": dict(
+   text="Refinement theorem: for every operation sequence over a tree of contexts (set, set_untracked, get, scope, subcontext, closures) the model's observations equal the abstract spec CtxId→Locale "
+        "(latest set wins; scoped views share the cell; sub-contexts isolated) — C16_refinement, C16_isolation(_seq), C16_scope_shares. Thin model: the correspondence (random op sequences on real I18nContexts) carries most of the weight.",
+   note=BASE + "leptos' reactive runtime (closure re-execution, RwSignal atomicity, effects) is trusted; the RenderEffect wiring an initial-locale signal is inert under ssr. See notes/C16.md.",
+   tech="Lean 4 proof (refinement by induction over op lists) + differential correspondence", ref="§6 C16, notes/C16.md"),
  "C12": dict(
    text="Lean theorems over a model of langid.rs (filter_matches/find_match): for all request lists and all supported sets the chosen "
         "locale is supported, matches the first request any supported locale serves, is the exact match if one exists and otherwise a most "
